@@ -4,6 +4,7 @@
               ensure <fixed 0|1> <top> <n> <len>  -> ENOUGH <len'> | OOS
               deep <k> <top> <per> <n> <len>      -> deep_outcome: ENOUGH <final len> | OOS   (k pending calls)
               grow <size> <min_size>              -> grow_stack (repaired): SOME <len> | NONE
+              session <fixed 0|1> <c0> <per> <n> <top> <len> <k>..  -> session_z: per call "ok top len", separated by " ; "
    (original header of the C03 driver follows)
    Requests (one per line, ASTs are s-expressions in the format of harness/embed_c03.c with
    names replaced by numbers):
@@ -130,6 +131,11 @@ let handle = function
       let z x = z_of_int (int_of_string x) in
       (match deep_outcome (z k) (z top) (z per) (z n) (z len) with
        | Enough l -> "ENOUGH " ^ sz l | OutOfStack -> "OOS")
+  | "session" :: fixed :: c0 :: per :: n :: top :: len :: ks ->
+      (* sexp_apply called again and again on one context: per call "1|0 <context top> <stack length>" *)
+      let z x = z_of_int (int_of_string x) in
+      String.concat " ; " (List.map (fun (ok, c) -> (if ok then "1 " else "0 ") ^ sz c.ctop ^ " " ^ sz c.clen)
+        (session_z (fixed = "1") (z c0) (z per) (z n) { ctop = z top; clen = z len } (List.map z ks)))
   | ["grow"; size; min_size] ->
       (match grow_stack true (z_of_int (int_of_string size)) (z_of_int (int_of_string min_size)) with
        | Some l -> "SOME " ^ sz l | None -> "NONE")
